@@ -263,11 +263,14 @@ vh::Outcome run_locks(const vh::Case& c, Prop prop) {
                     } else if (kind == O_ASSIGN) {
                         if constexpr (loadstore) { Tracked nv(bit); w = nv; }
                     } else if (kind == O_CAST) {
+                        // (guarded / guarded_opt declare `operator T() const` too, but it locks a non-mutable mutex and cannot be instantiated)
                         if constexpr (ordered) { Tracked v = static_cast<Tracked>(w); (void)v; }
                     } else if (kind == O_MODIFY) {
                         if constexpr (ordered) {
-                            if (op.a & 1) { int rv = w.modify([&](Tracked& t) { vrt::fault_point(vrt::F_FUNCTOR); uint64_t r = t.read(); vrt::step(); t.set(r | bit); vrt::fault_point(vrt::F_FUNCTOR); return 7; }); if (rv != 7) vrt::fail("modify-result", "modify did not return the functor's value"); }
-                            else w.modify([&](Tracked& t) { vrt::fault_point(vrt::F_FUNCTOR); uint64_t r = t.read(); vrt::step(); t.set(r | bit); vrt::fault_point(vrt::F_FUNCTOR); });
+                            int ran = 0;
+                            if (op.a & 1) { int rv = w.modify([&](Tracked& t) { ran++; vrt::fault_point(vrt::F_FUNCTOR); uint64_t r = t.read(); vrt::step(); t.set(r | bit); vrt::fault_point(vrt::F_FUNCTOR); return 7; }); if (rv != 7) vrt::fail("modify-result", "modify did not return the functor's value"); }
+                            else w.modify([&](Tracked& t) { ran++; vrt::fault_point(vrt::F_FUNCTOR); uint64_t r = t.read(); vrt::step(); t.set(r | bit); vrt::fault_point(vrt::F_FUNCTOR); });
+                            if (ran != 1) vrt::fail("functor-count", "modify() invoked the function " + std::to_string(ran) + " times");
                         }
                     }
                     // ---------------------------------------------------------------- shared ops
@@ -275,8 +278,10 @@ vh::Outcome run_locks(const vh::Case& c, Prop prop) {
                         if constexpr (ordered) {
                             st.shared_alive++;   // inside read() no modification may happen; bracket conservatively inside the functor
                             st.shared_alive--;
-                            if (op.a & 1) { uint64_t rv = w.read([&](const Tracked& t) { ScopedInc alive(st.shared_alive); vrt::fault_point(vrt::F_FUNCTOR); return t.read(); }); (void)rv; }
-                            else w.read([&](const Tracked& t) { ScopedInc alive(st.shared_alive); uint64_t a = t.read(); for (int s = 0; s < (op.b & 3); ++s) vrt::step(); vrt::fault_point(vrt::F_FUNCTOR); uint64_t b2 = t.read(); if (a != b2) vrt::fail("unstable-read", "value changed inside read()"); });
+                            int ran = 0;
+                            if (op.a & 1) { uint64_t rv = w.read([&](const Tracked& t) { ran++; ScopedInc alive(st.shared_alive); vrt::fault_point(vrt::F_FUNCTOR); return t.read(); }); if (rv != st.read_val[me]) vrt::fail("read-result", "read() did not return the function's value"); }
+                            else w.read([&](const Tracked& t) { ran++; ScopedInc alive(st.shared_alive); uint64_t a = t.read(); for (int s = 0; s < (op.b & 3); ++s) vrt::step(); vrt::fault_point(vrt::F_FUNCTOR); uint64_t b2 = t.read(); if (a != b2) vrt::fail("unstable-read", "value changed inside read()"); });
+                            if (ran != 1) vrt::fail("functor-count", "read() invoked the function " + std::to_string(ran) + " times");
                         }
                     } else {
                         if constexpr (shared_handle) {
